@@ -507,7 +507,7 @@ theorem facts_guard :
     Gen.Facts.c03RaForced = some true ∧ Gen.Facts.c03OptThenTruncateThenPack = some true ∧
     Gen.Facts.c03UdpSizeMin512 = some true ∧ Gen.Facts.c03CacheHitIdRewritten = some true ∧
     Gen.Facts.c03RedirectRestores = some true ∧ Gen.Facts.c03LocalAnswersUseSetReply = some true ∧
-    Gen.Facts.c03UdpUnpackInReadLoop = some true := by decide
+    Gen.Facts.c03UdpUnpackInReadLoop = some true ∧ Gen.Facts.c03RedirectRestoresCurrentQuery = some true := by decide
 
 /-! ### Non-vacuity: a valid query through redirect + local answer -/
 def qx : Question := ⟨[119, 119, 119], 1, 1⟩
